@@ -5,6 +5,7 @@ package naga
 import (
 	"github.com/gogpu/naga/glsl"
 	"github.com/gogpu/naga/internal/zzclike"
+	"github.com/gogpu/naga/internal/zztpl"
 	zz "github.com/gogpu/naga/internal/zzverif"
 )
 
@@ -91,4 +92,14 @@ func ZZ_C05_tv_integer_binary() {
 
 func ZZ_C05_tv_workgroup() {
 	zzRunTemplateGLSL(zzTemplatesW[zz.Choice("template", len(zzTemplatesW))])
+}
+
+// Thorough tier: every template followed by each probe template in one entry point.
+func ZZ_C05_tv_template_pairs() {
+	if !zz.Thorough() {
+		zz.Reach("end")
+		return
+	}
+	pairs := zztpl.Pairs()
+	zzRunTemplateGLSL(pairs[zz.Choice("pair", len(pairs))])
 }
